@@ -1,4 +1,5 @@
 """C08 - a run is a pure function of its input; runs do not contaminate each other."""
+import collections
 import functools
 import json
 
@@ -93,20 +94,20 @@ def _signatures(session, result):
     return sigs
 
 
-def evaluate(ctx, part, sessions, contents, refs, do_minimize=True):
-    """Run sessions on the real code, check them in Coq, file violations.  -> number of unknown property failures."""
+def evaluate(ctx, part0, sessions, contents, refs, do_minimize=True, tag=None):
+    """Run sessions on the real code, check them in Coq, file violations.  -> (worker results, lru_cache hit totals)"""
     for s in sessions:
         refs.ensure(S.contents_used(s))
-    results = S.run_sessions(ctx, sessions, contents, part)
-    codes = S.check_sessions(ctx, part, sessions, results, refs)
-    nops, failures = 0, 0
-    memo_hits = {}
+    tag = tag or part0
+    results = S.run_sessions(ctx, sessions, contents, tag)
+    codes = S.check_sessions(ctx, tag, sessions, results, refs)
+    failures, memo_hits = 0, {}
     for si, (s, r, cs) in enumerate(zip(sessions, results, codes)):
-        nops += len(s['ops'])
+        part = s.get('part', part0)
         sigs = _signatures(s, r)
         ctx.count(part, evaluations=len(s['ops']), nontrivial_keys=sigs, length=len(s['ops']) // 10 * 10,
                   hashseed='0' if s['hashseed'] == '0' else ('1' if s['hashseed'] == '1' else 'other'),
-                  outcome={f'{x[0]}:{x[1][0]}{":hit" if x[1][1] is True else ""}': 1 for x in sigs})
+                  outcome=dict(collections.Counter(f'{x[0]}:{x[1][0]}{":hit" if x[1][1] is True else ""}' for x in sigs)))
         for name, (hits, *_rest) in r['memo'].items():
             memo_hits[name] = memo_hits.get(name, 0) + hits
         found = [(i, 'impure', why) for i, why in S.impure_steps(s, r, refs)]
@@ -128,16 +129,19 @@ def evaluate(ctx, part, sessions, contents, refs, do_minimize=True):
                         f'failing operation {s["ops"][i]}', inp={'session': S.compact(cut, contents), 'from': s.get('name', f'{part}#{si}')},
                         expected='cwd/argv as before the call; result = reference result of the content in the file at request time',
                         observed={'cwd_after': obs['cwd_after'], 'argv_after': obs['argv_after'], 'outcome': obs['out'][:3]})
+        ctx.count(part, sessions={'n': 1})
         model_bad = [(i, c) for i, c in cs if c in ('model', 'harness')]
-        if model_bad:
+        variant = S.matches_variant(ctx, f'{tag}_variant_{si}', s, r, refs) if model_bad else None
+        if variant == 'repaired':   # proved sound (C08_content_key_refines_run): not a disagreement worth an alarm
+            ctx.note(f'{part}#{si}: the implementation behaves like the content-keyed (repaired) cache, not like the path-keyed one')
+            ctx.count(part, repaired_cache_sessions=1)
+        elif model_bad:
             i = model_bad[0][0]
-            pinned = S.matches_variant(ctx, f'{part}_pinned_{si}', False, s, r, refs)
             ctx.violate('corr', f'model:{s["ops"][i][0]}:{r["obs"][i]["out"][0]}',
                         f'implementation and Model.Process (current client) disagree at operation {i} {s["ops"][i]} of session '
                         f'{s.get("name", si)}' + ('; the implementation behaves like the client of the PINNED tree (restore only '
-                                                   'after success)' if pinned else ''),
+                                                   'after success)' if variant == 'pinned' else ''),
                         inp={'session': S.compact(dict(s, ops=s['ops'][:i + 1]), contents)}, observed=r['obs'][i])
-    ctx.count(part, sessions={'n': len(sessions)})
     return results, memo_hits
 
 
@@ -240,30 +244,24 @@ def correspondence(ctx, proofs_ok=True):
     entries = c08_memo.scan()
     contents, refs, ok_ids, bad_ids = build_pool(ctx, ctx.n(12, 36))
     memo_hits = {}
-    corpus = corpus_sessions()
-    if corpus:
-        # corpus sessions carry their own contents: give them ids after the pool
-        sessions = []
-        for d in corpus:
-            base = len(contents)
-            contents += d['contents']
-            ops = [([o[0], o[1], o[2] + base] if o[0] == 'write' else ([o[0], o[1], o[2], o[3] + base] if o[0] == 'getdict' else o))
-                   for o in d['ops']]
-            sessions.append(dict(d, ops=ops))
-        refs.contents = contents
-        _, mh = evaluate(ctx, 'corpus', sessions, contents, refs)
-        memo_hits.update(mh)
+    sessions = []
+    for d in corpus_sessions():   # corpus sessions carry their own contents: give them ids after the pool
+        base = len(contents)
+        contents += d['contents']
+        ops = [([o[0], o[1], o[2] + base] if o[0] == 'write' else ([o[0], o[1], o[2], o[3] + base] if o[0] == 'getdict' else o))
+               for o in d['ops']]
+        sessions.append(dict(d, ops=ops, part='corpus'))
     rnd = ctx.rng
     seeds = ['0', '1'] + [str(rnd.randrange(2, 2 ** 32)) for _ in range(ctx.n(2, 6))]
-    n = ctx.n(48, 1200)
-    sessions = [S.gen_session(rnd, ok_ids, bad_ids, rnd.randint(*ctx.n((12, 40), (20, 60))), seeds) for _ in range(n)]
+    n = ctx.n(48, 800)
+    sessions += [S.gen_session(rnd, ok_ids, bad_ids, rnd.randint(*ctx.n((12, 40), (20, 60))), seeds) for _ in range(n)]
     batch = 240
-    for lo in range(0, n, batch):
-        _, mh = evaluate(ctx, f'histories{lo // batch}' if n > batch else 'histories', sessions[lo:lo + batch], contents, refs)
+    for lo in range(0, len(sessions), batch):
+        _, mh = evaluate(ctx, 'histories', sessions[lo:lo + batch], contents, refs, tag=f'h{lo // batch}')
         for k, v in mh.items():
             memo_hits[k] = memo_hits.get(k, 0) + v
     memo_ties(ctx, entries, memo_hits)
-    ctx.sample('histories', {'ops': sessions[0]['ops'][:12], 'hashseed': sessions[0]['hashseed']})
+    ctx.sample('histories', {'ops': sessions[-1]['ops'][:12], 'hashseed': sessions[-1]['hashseed']})
     ctx.note('memo tables seen by the histories (total hits): ' + json.dumps({k: v for k, v in sorted(memo_hits.items()) if v}))
 
 
